@@ -9,6 +9,9 @@ from harness.core import REPO, VERIF, HarnessError
 CC = "clang"
 SAN = ["-fsanitize=address,undefined", "-fno-sanitize-recover=all", "-fno-omit-frame-pointer"]
 CSHIM = os.path.join(VERIF, "c", "shim")
+# gsm_utils.c includes "../../config.h": the include directory cfgdir/a/b must exist for that path to resolve.  git does not
+# keep empty directories, so a checkout of the committed files alone lacks it (a .gitkeep is committed too; this is the belt).
+os.makedirs(os.path.join(CSHIM, "fw", "cfgdir", "a", "b"), exist_ok=True)
 
 FW_INC = ["-I", os.path.join(CSHIM, "fw"),
           "-I", os.path.join(REPO, "src/shared/libosmocore/include"),
